@@ -21,10 +21,12 @@ import MetricsVerif.Driver.Allowlist
 import MetricsVerif.Driver.LocalRec
 import MetricsVerif.Driver.Atomics
 import MetricsVerif.Driver.StatsdAgg
+import MetricsVerif.Driver.C15
 
 open MetricsVerif.Driver
 
 structure DState where
+  c15 : C15.St := {}
   localrec : Option LocalRec.DSt := none
   allow : Option MetricsVerif.Allowlist.Sess := none
   debug : Option Debugging.DSt := none
@@ -91,6 +93,10 @@ def step (st : DState) (line : String) : DState × String :=
     | none => (st, "bad-op")
   | "atomics" :: args => (st, (Atomics.handle args).getD "bad-op")
   | "agg" :: args => (st, (StatsdAgg.handle args).getD "bad-op")
+  | "c15" :: args =>
+    match C15.handle st.c15 args with
+    | some (c, o) => ({ st with c15 := c }, o)
+    | none => (st, "bad-op")
   | _ => (st, "bad-op")
 
 partial def loop (h : IO.FS.Stream) (out : IO.FS.Stream) (st : DState) : IO Unit := do
